@@ -17,7 +17,7 @@ CLAIMED = {
    technique="custom static analysis over rustc HIR/MIR: backward slicing, CFG x DFA product, control-dependence of writes, loop-exit classification, sibling normal-form comparison",
    ref="DESIGN.md §4 C02"),
  "C04": dict(category="other",
-   text=STRUCT_TXT % "guarded improving register writes for the five unweighted sketchers; provenance of written values and seeds; legitimacy of early exits (a_upper, lower_k with tabled strictness); exactly-once item_rank increment and marker discipline; per-item permutation reset; pure delegation of sketch_slice (+ finisher); paired stored hashes; order-insensitive tie-break of payload registers",
+   text=STRUCT_TXT % "guarded improving register writes for the five unweighted sketchers; provenance of written values and seeds; legitimacy of early exits (a_upper, lower_k with tabled strictness); exactly-once item_rank increment and marker discipline; per-item permutation reset; pure delegation of sketch_slice (+ finisher); the crate's pass-through hashers assemble every byte exactly once; paired stored hashes; order-insensitive tie-break of payload registers",
    technique="custom static analysis over rustc HIR: control-dependence and guard matching of register writes, backward slicing, loop-exit classification, dominance of reset over draw",
    ref="DESIGN.md §4 C04"),
  "C19": dict(category="proof",
